@@ -238,6 +238,9 @@ func produce(emit func(Case)) {
 	// 2. exhaustive slice box
 	if on("box") {
 		lo, hi, maxLen := -7, 7, 5
+		if c11 && !full {
+			lo, hi = -4, 4 // the full box is C05's (quick) and the thorough tier's
+		}
 		bounds := []int{}
 		for i := lo; i <= hi; i++ {
 			bounds = append(bounds, i)
@@ -946,12 +949,24 @@ func unmodelled(ev string, r Rep, p Path) string {
 // explainC11 decides whether a disagreement between an evaluator and Get is one of the listed
 // deviations: with every deviation flag off the model of the evaluator agrees with the model of Get
 // (that is the theorem), and the flags whose removal changes either answer name the deviation.
+// flagsFor lists the deviation flags that can touch an evaluator (Get on the simple data, the other side
+// of every comparison, is touched by e and s).
+var flagsFor = map[string]string{
+	"get":       "esmt",
+	"gets":      "esmt",
+	"first":     "esmtfg",
+	"has":       "esmtfghd",
+	"locate":    "esncyomt",
+	"walk":      "esncywat",
+	"nodes":     "esurz",
+	"firstnode": "esurzl",
+}
+
 func (w *worker) explainC11(c *Case, pw, dw string, q query, ordered bool) (string, string, error) {
+	fl := flagsFor[q.op]
 	qs := []query{{q.op, q.rep, "-"}, {"get", "any.map", "-"}, {q.op, q.rep, pinnedFlags}, {"get", "any.map", pinnedFlags}}
-	for i := 0; i < len(allFlags); i++ {
-		f := string(allFlags[i])
-		qs = append(qs, query{q.op, q.rep, without(allFlags[i])}, query{"get", "any.map", without(allFlags[i])},
-			query{q.op, q.rep, f}, query{"get", "any.map", f})
+	for i := 0; i < len(fl); i++ {
+		qs = append(qs, query{q.op, q.rep, without(fl[i])}, query{"get", "any.map", without(fl[i])})
 	}
 	ans, err := w.ask(c, pw, dw, qs)
 	if err != nil {
@@ -961,13 +976,29 @@ func (w *worker) explainC11(c *Case, pw, dw string, q query, ordered bool) (stri
 	if ok, _ := agrees(ev, modelOut(ev, ans[0]), splitVals(ans[1]), ordered); !ok {
 		return "", "", nil // not explained: even the repaired model disagrees with Get
 	}
-	// a flag is involved if removing it alone from the pinned configuration, or adding it alone to the
-	// repaired one, changes the evaluator's or Get's answer
+	// a flag is involved if removing it alone from the pinned configuration changes the evaluator's or
+	// Get's answer ...
 	var flags []byte
-	for i := 0; i < len(allFlags); i++ {
-		b := 4 + 4*i
-		if ans[b] != ans[2] || ans[b+1] != ans[3] || ans[b+2] != ans[0] || ans[b+3] != ans[1] {
-			flags = append(flags, allFlags[i])
+	for i := 0; i < len(fl); i++ {
+		b := 4 + 2*i
+		if ans[b] != ans[2] || ans[b+1] != ans[3] {
+			flags = append(flags, fl[i])
+		}
+	}
+	if len(flags) == 0 {
+		// ... or (two deviations that each suffice) if adding it alone to the repaired configuration does
+		qs = qs[:0]
+		for i := 0; i < len(fl); i++ {
+			qs = append(qs, query{q.op, q.rep, string(fl[i])}, query{"get", "any.map", string(fl[i])})
+		}
+		on, err := w.ask(c, pw, dw, qs)
+		if err != nil {
+			return "", "", err
+		}
+		for i := 0; i < len(fl); i++ {
+			if on[2*i] != ans[0] || on[2*i+1] != ans[1] {
+				flags = append(flags, fl[i])
+			}
 		}
 	}
 	if len(flags) == 0 {
